@@ -603,6 +603,71 @@ theorem dropLeadingComments_spec : ∀ ls : List Line,
         · exact ⟨Or.inr (hmem x hx).1, (hmem x hx).2⟩
     · exact ⟨[], by simp⟩
 
+/-! ### `suppress_main_guard` -/
+
+theorem dropGuards_append (ls : List Line) (xs ys : List (Nat × Nat)) :
+    dropGuards ls (xs ++ ys) = dropGuards (dropGuards ls xs) ys := by
+  induction xs generalizing ls with
+  | nil => rfl
+  | cons x xs ih =>
+    obtain ⟨a, b⟩ := x
+    simp only [List.cons_append, dropGuards]
+    exact ih _
+
+/-- Deleting the guarded blocks from the last to the first = walking through the source and keeping
+what is outside them. -/
+theorem dropGuards_reverse (ifs : List (Nat × Nat)) : ∀ (pos : Nat) (ls pre : List Line),
+    pre.length = pos → RangesOk pos ls.length ifs →
+    dropGuards (pre ++ ls) ifs.reverse = pre ++ keepOutsideGuards pos ls ifs := by
+  induction ifs with
+  | nil => intro pos ls pre _ _; simp [dropGuards, keepOutsideGuards]
+  | cons r rest ih =>
+    obtain ⟨a, b⟩ := r
+    intro pos ls pre hpre hok
+    obtain ⟨h1, h2, h3, hrest⟩ := hok
+    have hk : b - pos ≤ ls.length := by omega
+    have hlen' : (pre ++ ls.take (b - pos)).length = b := by
+      simp only [List.length_append, List.length_take, hpre]; omega
+    have hrest' : RangesOk b (ls.drop (b - pos)).length rest := by
+      simpa only [List.length_drop] using hrest
+    have ihh := ih b (ls.drop (b - pos)) (pre ++ ls.take (b - pos)) hlen' hrest'
+    rw [List.append_assoc, List.take_append_drop] at ihh
+    obtain ⟨K, hK⟩ : ∃ K, K = keepOutsideGuards b (ls.drop (b - pos)) rest := ⟨_, rfl⟩
+    rw [← hK] at ihh
+    rw [List.reverse_cons, dropGuards_append, ihh]
+    have hidx : (pre ++ ls.take (b - pos) ++ K)[a - 1]? = ls[a - 1 - pos]? := by
+      rw [List.getElem?_append_left (by rw [hlen']; omega),
+        List.getElem?_append_right (by omega), hpre, List.getElem?_take]
+      rw [if_pos (by omega)]
+    have hhead : ((ls.drop (a - 1 - pos)).take (b - (a - 1))).head? = ls[a - 1 - pos]? := by
+      rw [List.head?_take, if_neg (by omega), List.head?_drop]
+    have hsplit : ls.take (b - pos) =
+        ls.take (a - 1 - pos) ++ (ls.drop (a - 1 - pos)).take (b - (a - 1)) := by
+      have : b - pos = (a - 1 - pos) + (b - (a - 1)) := by omega
+      rw [this, List.take_add]
+    simp only [dropGuards, keepOutsideGuards, isGuardAt, hidx, hhead]
+    rw [← hK]
+    cases hg : ls[a - 1 - pos]? with
+    | none =>
+      simp only [Option.map_none, Option.getD_none, Bool.false_eq_true, if_false]
+      rw [hsplit]; simp only [List.append_assoc]
+    | some l =>
+      simp only [Option.map_some, Option.getD_some]
+      by_cases hgl : guardLine l = true
+      · simp only [hgl, if_true, List.append_nil]
+        unfold delRange
+        have hA : (pre ++ ls.take (a - 1 - pos)).length = a - 1 := by
+          simp only [List.length_append, List.length_take, hpre]; omega
+        have ht : (pre ++ ls.take (b - pos) ++ K).take (a - 1) = pre ++ ls.take (a - 1 - pos) := by
+          rw [hsplit]
+          have : pre ++ (ls.take (a - 1 - pos) ++ (ls.drop (a - 1 - pos)).take (b - (a - 1))) ++ K =
+              (pre ++ ls.take (a - 1 - pos)) ++ ((ls.drop (a - 1 - pos)).take (b - (a - 1)) ++ K) := by
+            simp only [List.append_assoc]
+          rw [this, List.take_left' hA]
+        rw [ht, List.drop_left' hlen', List.append_assoc]
+      · simp only [hgl, Bool.false_eq_true, if_false]
+        rw [hsplit]; simp only [List.append_assoc]
+
 /-! ### the end of `full_cleaning`: no blank line -/
 
 theorem finish_nil_of_strip_nil {s : Text} (h : strip s = []) : finish s = [] := by
